@@ -100,11 +100,19 @@ def replay_for(ob, pid, mods):
     for m in mods:
         for pat, fn in getattr(m, "REPLAYS", []):
             if fnmatch.fnmatch(ob["name"], pat):
+                key = (m.__name__, pat)
+                if key in _REPLAY_CACHE and getattr(fn, "cacheable", True):
+                    return _REPLAY_CACHE[key]
                 try:
-                    return fn(ob)
+                    r = fn(ob)
                 except Exception as e:  # replay harness failure is not a verdict
-                    return {"reproduced": False, "detail": f"replay harness failed: {e!r}", "script": ""}
+                    r = {"reproduced": False, "detail": f"replay harness failed: {e!r}", "script": ""}
+                _REPLAY_CACHE[key] = r
+                return r
     return None
+
+
+_REPLAY_CACHE = {}
 
 
 def check_property(pid, tier="quick", seed=0, update_expected=False, jobs=None, only_units=None):
